@@ -27,6 +27,11 @@ import (
 	"fmt"
 	"os"
 	"path/filepath"
+	"runtime"
+	"runtime/debug"
+	"strings"
+	"os/exec"
+	"flag"
 	"sort"
 	"sync"
 	"sync/atomic"
@@ -785,6 +790,131 @@ func pendingFor(r *hx.Rand, data []byte) []int64 {
 	return out
 }
 
+// ---------- deep nesting of containers and gzip layers (subprocess) ----------
+
+// nest wraps inner in `levels` containers of one message each. A container with one message is
+// a 24-byte header in front of the body, so the nest is a sequence of headers.
+func nest(inner []byte, levels int) []byte {
+	out := make([]byte, 24*levels+len(inner))
+	for j := 0; j < levels; j++ {
+		h := out[24*j:]
+		binary.LittleEndian.PutUint32(h, proto.MessageContainerTypeID)
+		binary.LittleEndian.PutUint32(h[4:], 1)
+		binary.LittleEndian.PutUint64(h[8:], uint64(4*j+1))
+		binary.LittleEndian.PutUint32(h[16:], 0)
+		binary.LittleEndian.PutUint32(h[20:], uint32(len(out)-24*(j+1)))
+	}
+	copy(out[24*levels:], inner)
+	return out
+}
+
+const maxBody = 1024 * 1024 // proto.Message.Decode: bytes <= 1 MiB
+
+// deepNestPayload: `layers` times (as many container levels as fit into one 1 MiB message
+// body, capped at `levels`, then gzip_packed), innermost a pong.
+func deepNestPayload(layers, levels int) (payload []byte, depth int) {
+	cur := enc(&mt.Pong{MsgID: 4, PingID: 1})
+	for l := 0; l < layers; l++ {
+		n := (maxBody - len(cur)) / 24
+		if n > levels {
+			n = levels
+		}
+		if n < 0 {
+			n = 0
+		}
+		cur = nest(cur, n)
+		depth += n
+		if l != layers-1 {
+			cur = gz(cur)
+			depth++
+		}
+	}
+	return cur, depth
+}
+
+func nestChild(spec string) {
+	var layers, levels, maxStackMB int
+	fmt.Sscanf(spec, "%d:%d:%d", &layers, &levels, &maxStackMB)
+	if maxStackMB > 0 {
+		debug.SetMaxStack(maxStackMB << 20)
+	}
+	payload, depth := deepNestPayload(layers, levels)
+	rec := &recorder{}
+	engine := rpc.New(rpc.NopSend, rpc.Options{})
+	conn := mtproto.VerifNew(mtproto.Options{Handler: handler{rec: rec}}, mtproto.VerifConfig{Engine: engine})
+	ch := conn.VerifPong(1)
+	fmt.Printf("nest: layers=%d depth=%d payload=%d\n", layers, depth, len(payload))
+	t0 := time.Now()
+	err := conn.VerifHandleMessage(7, &bin.Buffer{Buf: payload})
+	closed := false
+	select {
+	case <-ch:
+		closed = true
+	default:
+	}
+	var ms runtime.MemStats
+	runtime.ReadMemStats(&ms)
+	fmt.Printf("nest: done sys=%d ms=%d pong=%v err=%v\n", ms.Sys, time.Since(t0).Milliseconds(), closed, err)
+	os.Exit(0)
+}
+
+func runNest(c *hx.Ctx, layers, levels, maxStackMB int, timeout time.Duration) (out string, err error) {
+	exe, e := os.Executable()
+	if e != nil {
+		return "", e
+	}
+	cmd := exec.Command(exe, "-nest", fmt.Sprintf("%d:%d:%d", layers, levels, maxStackMB), "-out", c.Out)
+	var buf bytes.Buffer
+	cmd.Stdout, cmd.Stderr = &buf, &buf
+	if e := cmd.Start(); e != nil {
+		return "", e
+	}
+	done := make(chan error, 1)
+	go func() { done <- cmd.Wait() }()
+	select {
+	case err = <-done:
+	case <-time.After(timeout):
+		_ = cmd.Process.Kill()
+		err = errors.New("timeout")
+	}
+	s := buf.String()
+	if len(s) > 4000 {
+		s = s[:4000]
+	}
+	return s, err
+}
+
+// nestFamily: deep container / gzip nesting, executed in a subprocess so that a fatal stack
+// overflow or an out-of-memory kill is an observation, not the end of the harness. Oracle: the
+// subprocess survives and the memory it obtained from the OS stays proportional to the payload.
+func nestFamily(c *hx.Ctx, layers, levels int) {
+	c.Obs.Evaluations++
+	c.Count(fmt.Sprintf("nest:layers=%d:levels=%d", layers, levels))
+	out, err := runNest(c, layers, levels, 0, 180*time.Second)
+	rp := map[string]interface{}{"mode": "nest", "layers": layers, "levels": levels}
+	var payload, depth int
+	var sys, ms int64
+	for _, l := range strings.Split(out, "\n") {
+		fmt.Sscanf(l, "nest: layers=%d depth=%d payload=%d", &layers, &depth, &payload)
+		fmt.Sscanf(l, "nest: done sys=%d ms=%d", &sys, &ms)
+	}
+	first := out
+	if len(first) > 300 {
+		first = first[:300]
+	}
+	switch {
+	case strings.Contains(out, "stack overflow") || strings.Contains(out, "goroutine stack exceeds"):
+		c.Violate("fatal-stack-overflow:nested-containers-and-gzip", fmt.Sprintf("handleMessage on %d nested container/gzip levels (%d bytes) kills the process: %s", depth, payload, strings.ReplaceAll(first, "\n", " | ")), -1, 0, rp)
+	case err != nil || sys == 0:
+		c.Violate("nesting-crash:other", fmt.Sprintf("handleMessage on %d nested container/gzip levels (%d bytes) did not finish: %v: %s", depth, payload, err, strings.ReplaceAll(first, "\n", " | ")), -1, 0, rp)
+	case sys > 96<<20+64*int64(payload):
+		c.Violate("quadratic-memory:nested-containers", fmt.Sprintf("handleMessage on %d nested container/gzip levels (a payload of %d bytes) obtained %d bytes from the OS in %d ms", depth, payload, sys, ms), -1, 0, rp)
+	default:
+		c.Nontrivial(fmt.Sprintf("nest:%d:%d", layers, levels))
+		c.Note(fmt.Sprintf("nesting: layers=%d depth=%d payload=%d bytes: sys=%d bytes, %d ms", layers, depth, payload, sys, ms))
+	}
+}
+
 // ---------- watchdog ----------
 
 type watched struct {
@@ -877,10 +1007,27 @@ func interleaved(r *hx.Rand) *caseIn {
 }
 
 func main() {
+	nestSpec := flag.String("nest", "", "(internal) child mode layers:levels:maxstackMB")
 	c := hx.Start("C23", "Run.Check_C23", 60)
+	if *nestSpec != "" {
+		nestChild(*nestSpec)
+		return
+	}
 	h := &H{c: c, coqLeft: c.N(340, 6000)}
 	theCtx = c
 	watchdog(60 * time.Second)
+	var rpn struct {
+		Mode           string
+		Layers, Levels int
+	}
+	if c.Replay != "" && c.LoadReplay(&rpn) && rpn.Mode == "nest" {
+		nestFamily(c, rpn.Layers, rpn.Levels)
+		for _, v := range c.Obs.Violations {
+			fmt.Printf("replay: VIOLATION %s: %s\n", v.Sig, v.Desc)
+		}
+		c.Finish()
+		return
+	}
 	var rp caseIn
 	if c.LoadReplay(&rp) {
 		rp.data, _ = hex.DecodeString(rp.Hex)
@@ -1008,8 +1155,31 @@ func main() {
 		}
 		bnd = append(bnd, body)
 	}
+	// nesting around the limit of handleNestedMessage: d containers / d gzip layers / alternating
+	pongB := enc(&mt.Pong{MsgID: 4, PingID: 1})
+	for d := 6; d <= 10; d++ {
+		bnd = append(bnd, nest(pongB, d))
+		g, a := pongB, pongB
+		for i := 0; i < d; i++ {
+			g = gz(g)
+			if i%2 == 0 {
+				a = nest(a, 1)
+			} else {
+				a = gz(a)
+			}
+		}
+		bnd = append(bnd, g, a)
+	}
 	for _, b := range bnd {
 		h.one(mk("boundary", b, nil), true)
+	}
+	// deep nesting in a subprocess: 4000 containers (96 KB), gzip layers around container nests
+	nestFamily(c, 1, 4000)
+	nestFamily(c, 3, 1500)
+	nestFamily(c, 12, 300)
+	if c.Thorough() {
+		nestFamily(c, 1, 43000)
+		nestFamily(c, 6, 43000)
 	}
 	c.Obs.Rule = "evaluation = one payload handled by a fresh bare Conn with a real rpc.Engine (pending requests registered through Do) and registered pings; non-trivial = distinct (stream, size, deliveries, closed pings, gzip expansions) where something was delivered / closed / decompressed, or any event was observed"
 	c.Note("model parameters fixed by the harness: Output.Decode fails iff len(payload)%3==0, Handler.OnMessage fails iff len(payload)%5==0, Handler.OnSession fails per case flag; pending ids never include an id named twice by the payload (the second notification races with the completion of Engine.Do, see C24)")
